@@ -1133,6 +1133,13 @@ mzd_t *mzd_transpose(mzd_t *DST, mzd_t const *A) {
     return mzd_copy(DST, A);
 
   rci_t maxsize = MAX(A->nrows, A->ncols);
+  if (__M4RI_UNLIKELY(mzd_is_dangerous_window(A))) {
+    /* the kernels assume that the bits beyond the last column of the source are zero */
+    mzd_t *Abar = mzd_copy(NULL, A);
+    mzd_transpose(DST, Abar);
+    mzd_free(Abar);
+    return DST;
+  }
   if (__M4RI_LIKELY(!mzd_is_dangerous_window(DST))) {
     _mzd_transpose(DST->data, A->data, DST->rowstride, A->rowstride, A->nrows, A->ncols, maxsize);
     return DST;
